@@ -9,9 +9,14 @@
    Trusted in this tie: the translator's reading of Python (struct.pack formats as Prim.pack_list, the _util writers as
    the Prim writers, dict iteration in insertion order, `+=` / list-append-join / `+` as concatenation in evaluation
    order, isinstance/assert guards and None-defaults dropped; zlib.crc32(..) & 0xFFFFFFFF as Model.Crc.crc32;
-   int(time.time() * 1000) as the next reading of the scripted clock). *)
+   int(time.time() * 1000) as the next reading of the scripted clock; gzip_encode / snappy_encode as the oracle).
+   The primitives themselves are tied to the source by the C12 translator tie (coq/Props/C12gen.v, harness/py2util.py):
+   C12gen_write_int_string, C12gen_write_short_bytes, C12gen_write_short_ascii, C12gen_write_short_text (= the Prim
+   writers used by IIntString / IShortBytes / IAscii / IText) and C12gen_group_by_topic_and_partition
+   (= Model.Requests.group_by_topic_and_partition, the meaning of EGroup). *)
 From Coq Require Import String.
-From AV Require Import Base.Util Model.Prim Model.MsgSet Model.Requests Model.EncDSL Model.EncAst Proofs.EncDSLSound.
+From AV Require Import Base.Util Model.Prim Model.MsgSet Model.Requests Model.EncDSL Model.EncDSLV Model.EncAst
+     Proofs.EncDSLSound Proofs.EncDSLVSound.
 Open Scope string_scope.
 
 Theorem C04gen_header : forall cid corr key ver,
@@ -120,6 +125,41 @@ Theorem C04gen_produce : forall clock cid corr ps acks timeout v,
 Proof. exact produce_sound. Qed.
 Print Assumptions C04gen_produce.
 
+(* ---- the constructors of message sets (module level; they return Message objects: value programs, Model/EncDSLV.v).
+   [vrun p env orc clock k] = the value returned and the number of clock readings, or the exception; gzip_encode /
+   snappy_encode are the oracle [orc] of Model.MsgSet.  The assert statements of create_message (types, magic in (0, 1))
+   are dropped by the translator, as they are outside the frozen model. ---- *)
+Theorem C04gen_create_message : forall orc clock k payload key magic,
+  vrun ast_create_message [VStr payload; VStr key; VInt magic] orc clock k
+  = Ok (msg_val (create_message (clock k) payload key magic), if (magic =? 1)%Z then S k else k).
+Proof. exact create_message_sound. Qed.
+Print Assumptions C04gen_create_message.
+
+Theorem C04gen_create_gzip_message : forall orc clock k msgs magic,
+  vrun ast_create_gzip_message [VList (map msg_val msgs); VInt magic] orc clock k
+  = do w <- create_gzip_message orc clock k msgs magic;
+    Ok (msg_val w, (k + clock_uses msgs + (if (magic =? 1)%Z then 1 else 0))%nat).
+Proof. exact create_gzip_message_sound. Qed.
+Print Assumptions C04gen_create_gzip_message.
+
+Theorem C04gen_create_snappy_message : forall orc clock k msgs magic,
+  vrun ast_create_snappy_message [VList (map msg_val msgs); VInt magic] orc clock k
+  = do w <- create_snappy_message orc clock k msgs magic;
+    Ok (msg_val w, (k + clock_uses msgs + (if (magic =? 1)%Z then 1 else 0))%nat).
+Proof. exact create_snappy_message_sound. Qed.
+Print Assumptions C04gen_create_snappy_message.
+
+(* create_message_set: the nested loop over requests and payloads calling create_message (one clock reading per message
+   in format 1), then the dispatch on the codec; the list returned is exactly the model's *)
+Theorem C04gen_create_message_set : forall orc clock reqs codec magic,
+  match create_message_set orc clock reqs codec magic with
+  | Ok ms => exists kf, vrun ast_create_message_set [VList (map req_val reqs); VInt codec; VInt magic] orc clock O
+                        = Ok (VList (map msg_val ms), kf)
+  | Err e => vrun ast_create_message_set [VList (map req_val reqs); VInt codec; VInt magic] orc clock O = Err e
+  end.
+Proof. exact create_message_set_sound. Qed.
+Print Assumptions C04gen_create_message_set.
+
 (* non-vacuity: the terms are run, they do not merely type-check *)
 Example gen_heartbeat_bytes :
   run ast_encode_heartbeat_request
@@ -144,3 +184,11 @@ Example gen_message_set_unbound :
   runc ast_encode_message_set [VList [msg_val (mkMessage 0 0 None None None)]; VNone; VInt 2] (fun _ => 0%Z) O = Err NameErr /\
   runc ast_encode_message [msg_val (mkMessage 2 0 None None None)] (fun _ => 0%Z) O = Err Protocol.
 Proof. split; vm_compute; reflexivity. Qed.
+Example gen_create_message_set_gzip :
+  match vrun ast_create_message_set
+             [VList [req_val (Some [107], [Some [97]; None]); req_val (None, [Some []])]; VInt 1; VInt 1]
+             marker_oracle (fun j => 50 + Z.of_nat j)%Z O with
+  | Ok (VList [w], k) => k = 4%nat /\ vfield "timestamp" w = Some (VInt 53) /\ vfield "attributes" w = Some (VInt 1)
+  | _ => False
+  end.
+Proof. vm_compute. repeat split; reflexivity. Qed.
